@@ -1,7 +1,7 @@
 (* Extract.v — the only file with Extraction commands.  ExtrOcamlBasic only:
    bool, option, list, prod, unit, sumbool map to OCaml's own; N, Z, positive,
    nat stay the Coq datatypes.  No Extract Constant / Extract Inductive here. *)
-From GM Require Import Codec SpecCodec ApiSpec Monitors.
+From GM Require Import Codec AsmCodec SpecCodec ApiSpec Monitors.
 From Coq Require Import ExtrOcamlBasic.
 Extraction Language OCaml.
-Extraction "model.ml" run_case3 spec_case mon_case_all Z.add Z.mul Z.div_eucl Z.opp.
+Extraction "model.ml" run_case4 spec_case2 mon_case_all Z.add Z.mul Z.div_eucl Z.opp.
